@@ -95,6 +95,26 @@ CHECKS = {
         note="Order-insensitivity of tie-breaking among exactly equal scores and equality of restricted vs full runs are declined.",
         tech="static analysis: effect/taint analysis (R-EFFECT), selection-predicate normal forms (R-TERM), argument/role lint (R-ROLE)",
         ref="DESIGN.md section 4 C10"),
+    "C11": dict(
+        text="Static strand-sibling agreement: label numbering 1+shift ascending vs len+shift descending with coordinates mirrored "
+             "about length-1; the chainer's query distance is antisymmetric between strands; the row header exchanges query "
+             "start/end on '-'; the reverse vector is the complete reversal of the forward query vector (reference never "
+             "reversed); both strands go through getInitialAlignment with identical arguments and are offered independently; "
+             "the strand flag is carried unchanged through refine, pairing, segments and the result row.",
+        note="The end-to-end symmetry (same pairs renumbered, same confidence) additionally needs binning symmetry and identical "
+             "floating-point peaks; declined.",
+        tech="static analysis: mirror-symmetry of sibling branches as term normal forms (R-TERM), call-site argument equality",
+        ref="DESIGN.md section 4 C11"),
+    "C12": dict(
+        text="Static term/flow rules on AlignerEngine.align: reference window {start-d <= x <= end+d} and candidate window "
+             "{adj-d <= q <= adj+d} are closed intervals (recognised from takewhile/dropwhile or comprehension forms); offset = "
+             "q - (r - seed); the unpaired lists are complements by siteId over the same two position lists against the "
+             "de-duplicated pairs that are returned; result = sorted(pairs + unpaired); label numbering per strand; "
+             "de-duplication shape.",
+        note="'Strictly mutual nearest neighbours are always paired' and order preservation are claims about the greedy selection on "
+             "arbitrary geometries; declined.",
+        tech="static analysis: interval normal forms of window predicates (R-TERM), def-use identity of list terms (R-FLOW)",
+        ref="DESIGN.md section 4 C12"),
     "C13": dict(
         text="Static term rules on the segment builder with operands located by provenance (factory parameter -> attribute -> "
              "builder argument -> builder attribute): constructor rejects minScore <= 0; break iff running <= 0 or running <= "
@@ -113,6 +133,33 @@ CHECKS = {
         note="Assumes segmentJoinMultiplier >= 0 (not validated by args.py: observation O6). Optimality over all subsets is declined.",
         tech="static analysis: sign abstract interpretation (R-SIGN) + term normal forms + structural DP bookkeeping rules",
         ref="DESIGN.md section 4 C14"),
+    "C15": dict(
+        text="Static provenance rules: every value returned by any resolveConflict implementation is the left/right segment or "
+             "`segment - x` with x taken from that side's own conflicting sub-segment; __sub__ and slice return "
+             "AlignmentSegment.create over a sub-sequence of self.positions (no element construction or concatenation) with "
+             "the same peak; conflicting sub-segments are slices of their own segment over [later.start, earlier.end]; the "
+             "earlier chain member is the left segment; pairwise pass as C01.3.",
+        note="Re-ordering operators (sorted/reversed) cannot be judged statically and give ANALYSIS-ERROR. 'No shared label "
+             "afterwards' and 'pairs outside the overlap are kept' are run-time geometry; declined.",
+        tech="static analysis: provenance closure of returned values under shrinking operators (R-EFFECT), role agreement left/right",
+        ref="DESIGN.md section 4 C15"),
+    "C16": dict(
+        text="Static rules for the seed/peak selection and units: selectPeaks is TOPK(peak.score, count, desc) over all peaks; "
+             "createPeaks keeps the indices of the peaksCount largest heights under the peaksCount<size guard and indexes "
+             "positions, heights and both bases with one index vector; positions/bases are converted with the correlation's own "
+             "resolution and window start; getInitialAlignment/refine pass the resolution of the one generator that built both "
+             "vectors, refine offsets by its window start; the bin-centre formula.",
+        note="Exactness of vectorisePositions/blur for all (start, end, resolution, radius) is arithmetic on run-time values; declined.",
+        tech="static analysis: order-operator normal forms (R-TERM), sibling agreement across zipped arrays, unit flow (R-FLOW)",
+        ref="DESIGN.md section 4 C16"),
+    "C17": dict(
+        text="Static rules on the CMAP reader and trimming: positions pass a sort; label rows and the end marker are selected by "
+             "complementary tests on LabelChannel; length = int(end marker Position); filter, grouping and id read-back use one "
+             "column and every used column is requested; None (label-less) molecules are dropped and an empty frame gives []; "
+             "queries are trimmed and references are not; trim length/positions/id formulae.",
+        note="pandas parsing behaviour (decimal coordinates, extra columns) and idempotence as a run-time fact are declined.",
+        tech="static analysis: source->sanitiser flow (R-FLOW), complementary-predicate and column-table agreement (R-TABLE), term normal forms",
+        ref="DESIGN.md section 4 C17"),
     "C18": dict(
         text="Static format agreement between XmapReader.writeAlignments and readAlignments/pair parsers: column tables, "
              "separators, comment/header prefixes, header=False, the '(ref,qry)' Alignment grammar with the reader's strip/split "
@@ -120,6 +167,15 @@ CHECKS = {
         note="Value round-trip (int truncation, two decimals, coordinate lookup) is declined.",
         tech="static analysis: writer/reader table agreement (R-TABLE) over normalised terms",
         ref="DESIGN.md section 4 C18"),
+    "C19": dict(
+        text="Static rules on the comparer: compared / first-only / second-only rows are selected by complementary membership "
+             "tests over two dictionaries built by one function keyed by (queryId, referenceId); wrapper constructors, enum "
+             "members, slots and counters agree on their 1/2 roles; the four counters partition the row kinds and only-rows "
+             "carry identity 0; side-2 difference/coverage are the side-1 computations with arguments exchanged; coverage "
+             "formula with 1 for an empty alignment.",
+        note="Numeric bounds in [0,1] and reflexivity (SequenceMatcher.ratio, duplicated pairs) are value-level; declined.",
+        tech="static analysis: complementary-predicate partition and symmetry under argument exchange as term equalities (R-TERM), role lint (R-ROLE)",
+        ref="DESIGN.md section 4 C19"),
     "C20": dict(
         text="Static rules on the sv/ scripts: every path through one iteration of the clustering loop consumes the call exactly "
              "once (merge: count+1 and id appended under the (type,chromosome) guard with start<-min, stop<-max; or new cluster "
